@@ -99,4 +99,51 @@ func init() {
 		Outside: []string{"longer histories and strings", "append growth policies other than Go's (the spare capacity is made explicit in the pre-state instead)"},
 		Oracle:  "the encodings (String) of all family members other than the one operated on are unchanged after every step; Put leaves the caller's message bit-identical and in automatic mode stores a distinct copy carrying the next decimal ID",
 	}
+
+	// ---- messages: encoding, decoding, byte accounting ----
+	checks["C15"] = &propCheck{
+		ID: "C15",
+		Quick: []hrun{
+			{Harness: "vhC15RoundTrip", Params: P("CALLS", 2, "N", 1, "RETRY", 2), Covers: []string{"C15/roundtrip", "C15/empty-message"}},
+			{Harness: "vhC15RoundTrip", Params: P("CALLS", 1, "N", 2, "RETRY", 2), Covers: []string{"C15/roundtrip"}},
+			{Harness: "vhC15Writer", Params: P("CALLS", 1, "N", 1, "RETRY", 2), Covers: []string{"C15/writer-failed"}},
+			{Harness: "vhC15Retry", Params: P("RHIMS", 1000), Solver: "cvc5-int", Covers: []string{"C15/retry/written"}},
+		},
+		Thorough: []hrun{
+			{Harness: "vhC15RoundTrip", Params: P("CALLS", 2, "N", 2, "RETRY", 2), Covers: []string{"C15/roundtrip", "C15/empty-message"}},
+			{Harness: "vhC15RoundTrip", Params: P("CALLS", 3, "N", 1, "RETRY", 0), Covers: []string{"C15/roundtrip"}},
+			{Harness: "vhC15Writer", Params: P("CALLS", 2, "N", 1, "RETRY", 2), Covers: []string{"C15/writer-failed"}},
+			{Harness: "vhC15Writer", Params: P("CALLS", 1, "N", 2, "RETRY", 2), Covers: []string{"C15/writer-failed"}},
+			{Harness: "vhC15Retry", Params: P("RFULL", 1), Solver: "cvc5-int", Covers: []string{"C15/retry/written"}},
+		},
+		Labels: []string{"C15/"},
+		Bounds: map[string]string{
+			"quick":    "messages built through the public API: <=2 AppendData/AppendComment calls in any order with strings <=1 byte (or 1 call, <=2 bytes), optional ID and type (strings of the same bound, kept if accepted, NUL-free IDs), Retry in {0,-1ns,1ms-1ns,1ms,MaxInt64,MinInt64}; failing writer: every Write call index as the failing one with every short count (symbolic); retry field alone: every duration in [-1ms, 1000ms) (cvc5 with bit-vectors solved as integers)",
+			"thorough": "<=2 calls with strings <=2 bytes, <=3 calls with <=1 byte; failing writer with 2 calls; retry field alone: EVERY int64 duration (all 13 digit counts; the 13-byte buffer never overflows)",
+		},
+		Outside: []string{"longer strings / more Append calls than the bound", "IDs containing NUL (excluded by the property)"},
+		Oracle:  "MarshalText, String and WriteTo(bytes.Buffer) byte-identical; UnmarshalText(MarshalText(m)) reproduces ID, type, retry truncated to ms and the ordered (content, isComment) list given by an independent line splitter; WriteTo on a failing writer returns exactly the accepted byte count and the writer's error, every Write is the next piece of the full encoding, no Write follows the failing one",
+	}
+	checks["C02"] = &propCheck{
+		ID: "C02",
+		Quick: []hrun{
+			{Harness: "vhC02", Params: P("CALLS", 2, "N", 1, "MSGS", 1, "RETRY", 2), Covers: []string{"C02/some-data-event"}},
+			{Harness: "vhC02", Params: P("CALLS", 1, "N", 2, "MSGS", 1, "RETRY", 2), Covers: []string{"C02/some-data-event"}},
+			{Harness: "vhC02", Params: P("CALLS", 1, "N", 1, "MSGS", 2, "RETRY", 0), Covers: []string{"C02/some-data-event"}},
+			{Harness: "vhC15Retry", Params: P("RHIMS", 1000), Solver: "cvc5-int"},
+		},
+		Thorough: []hrun{
+			{Harness: "vhC02", Params: P("CALLS", 2, "N", 2, "MSGS", 1, "RETRY", 2), Covers: []string{"C02/some-data-event"}},
+			{Harness: "vhC02", Params: P("CALLS", 1, "N", 3, "MSGS", 1, "RETRY", 0), Covers: []string{"C02/some-data-event"}},
+			{Harness: "vhC02", Params: P("CALLS", 1, "N", 1, "MSGS", 2, "RETRY", 2), Covers: []string{"C02/some-data-event"}},
+			{Harness: "vhC15Retry", Params: P("RFULL", 1), Solver: "cvc5-int"},
+		},
+		Labels: []string{"C02/", "C15/retry/"},
+		Bounds: map[string]string{
+			"quick":    "1 message with <=2 Append calls of strings <=1 byte or 1 call <=2 bytes, optional ID/type of the same bound, Retry boundary values; 2 concatenated messages with 1 call, strings <=1 byte; all 256 values per byte (CR, LF, colon, space, NUL, BOM bytes included)",
+			"thorough": "1 message: 2 calls <=2 bytes, 1 call <=3 bytes; 2 messages with Retry boundary values; retry field for every int64 duration",
+		},
+		Outside: []string{"longer strings", "more than 2 concatenated messages except through the lemma 'every non-empty wire form ends in exactly one blank line, has no inner blank line and no CR' (asserted)"},
+		Oracle:  "independent WHATWG interpreter in browser mode (dispatch only on non-empty data buffer) and go-sse's own Read over the concatenated wire forms: one event per message with data, Data = LF-join of the independently split lines of the appended strings, Type and most recent NUL-free ID as set",
+	}
 }
